@@ -72,10 +72,20 @@ def meta(ids):
         rem = len(re.findall(r"^-(?!--)", patch, re.M))
         conf = open(d + "/confirm.log").read() if os.path.exists(d + "/confirm.log") else ""
         chk = json.load(open(d + "/check.json")) if os.path.exists(d + "/check.json") else {}
-        m = {"id": s, "property": s.split("-")[0], "files": files, "lines_added": add, "lines_removed": rem,
+        needs = ""
+        rd = open(d + "/README.md").read() if os.path.exists(d + "/README.md") else ""
+        mm = re.search(r"^#+[^\n]*(?:need|manifest|trigger)[^\n]*\n(.*?)(?=^#+ |\Z)", rd, re.M | re.S | re.I)
+        if mm:
+            needs = " ".join(mm.group(1).split())[:1200]
+        else:
+            mm = re.search(r"(?:needs?|needed|manifest)[^\n]*\n(.*?)(?=^#+ |\Z)", rd, re.M | re.S | re.I)
+            needs = " ".join(mm.group(1).split())[:800] if mm else "see README.md"
+        m = {"id": s, "property": s.split("-")[0], "needs_in_order_to_manifest": needs, "files": files, "lines_added": add, "lines_removed": rem,
              "written_by": "a sub-agent given only the property text and a scratch worktree of /repo; rebased by hand where a later fix: commit touched the same lines",
              "confirm": {k: (k in conf) for k in ("BUILD_OK", "SUITE_PASS_WITH_PATCH", "DEMO_FAILS_WITH_PATCH", "DEMO_PASSES_WITHOUT_PATCH")},
              "demonstration": "demo/ (go test files; see README.md)",
+             "what_was_run": "tools/confirm_seed.sh (scratch worktree of /repo HEAD: go build, full suite twice with the patch, demo with and "
+                             "without the patch) and tools/seeds.py check (patch applied to /repo's working tree, ./check <property> --tier quick, tree restored)",
              "checked_at_repo_head": chk.get("repo_head"),
              "checks": chk.get("runs", []),
              "caught": any(r["exit"] != 0 for r in chk.get("runs", []) if r["check"] == s.split("-")[0]),
